@@ -23,8 +23,19 @@ var vC06Docs = []string{
 	"JSIGHT 0.3\nMACRO @m1\n(\n  PASTE @m1\n)\nMACRO @m2\n(\n  PASTE @m2\n)\nMACRO @m3\n(\n  PASTE @m3\n)\nGET /x\n  200 any\n",
 	// 3: allOf overriding a property (error names a property / type: order of properties matters)
 	"JSIGHT 0.3\nTYPE @p1\n{\n  \"a\": 1,\n  \"b\": 2\n}\nTYPE @p2\n{\n  \"c\": 3,\n  \"d\": 4\n}\nTYPE @kid\n{ // {allOf: [\"@p1\", \"@p2\"]}\n  \"b\": 5,\n  \"c\": 6\n}\nGET /x\n  200 @kid\n",
+	// 5 (appended below): a Path schema with unused properties
 	// 4: path parameters defined twice in Path directives of different levels
 	"JSIGHT 0.3\nURL /a/{x}/{y}\n  Path\n  {\"x\": 1}\n  GET\n    Path\n    {\"y\": 2}\n    200 any\nGET /a/{x}/{y}/c\n  Path\n  {\n    \"x\": 1,\n    \"y\": 3\n  }\n  200 any\n",
+	// 5: a Path schema with two properties that are not parameters of the path (the error lists them)
+	"JSIGHT 0.3\nGET /cats/{id}\n  Path\n  {\n    \"id\": 1,\n    \"aaa\": 2,\n    \"bbb\": 3\n  }\n  200 any\n",
+	// 6: two user types that both use an undefined type (which one is reported?)
+	"JSIGHT 0.3\nTYPE @t1\n{\n  \"a\": \"@nope1\" // {type: \"@nope1\"}\n}\nTYPE @t2\n{\n  \"b\": \"@nope2\" // {type: \"@nope2\"}\n}\nGET /x\n  200 any\n",
+	// 7: a Tags directive naming three tags and repeating one; two methods; URL-level Tags
+	"JSIGHT 0.3\nTAG @a\nTAG @b\nTAG @c\nURL /u\n  Tags @c @b\n  GET\n    Tags @a @b @c @a\n    200 any\n  POST\n    200 any\n",
+	// 8: a path that repeats two different parameters (which one is named?) 
+	"JSIGHT 0.3\nGET /o/{o}/p/{p}/f/{o}/t/{p}\n  200 any\n",
+	// 9: two servers, two tags with descriptions, two enums used by one type, OperationIds
+	"JSIGHT 0.3\nSERVER @s1\n  BaseUrl \"https://a\"\nSERVER @s2\n  BaseUrl \"https://b\"\nTAG @x\n  Description\n    dx\nTAG @y\n  Description\n    dy\nENUM @e1\n[1]\nENUM @e2\n[2]\nTYPE @t\n{\n  \"p\": 1, // {enum: @e1}\n  \"q\": 2 // {enum: @e2}\n}\nGET /a\n  Tags @y @x\n  OperationId one\n  200 @t\nGET /b\n  Tags @x\n  OperationId two\n  200 @t\n",
 }
 
 // HDeterminism (C06): the same project built with insertion-ordered maps and built
